@@ -169,7 +169,10 @@ fn gen_scenario(check: &str, seed: u64, run: u64) -> Scenario {
     let workers = *rng.pick(&[1u32, 2, 2, 3]);
     let collector_active = pf.tight || rng.chance(1, 3);
     let capacity = if collector_active { *rng.pick(&[104u32, 128, 160, 256]) } else { 1 << 16 };
-    let alloc_fail = pf.buggify_alloc && rng.chance(2, 3);
+    // C07 (since seeded change C07-7): one scenario in five also meets allocation failures, so that the
+    // error paths of the parallel recursion (results of finished halves, guards around join()) run
+    // under schedules as well
+    let alloc_fail = (pf.buggify_alloc && rng.chance(2, 3)) || (check == "C07" && rng.chance(1, 5));
     let config = Config {
         kind,
         vars,
@@ -519,7 +522,11 @@ struct CampaignResult {
 }
 
 fn relevant<'a>(check: &str, vs: &'a [Violation]) -> Option<&'a Violation> {
-    vs.iter().find(|v| v.props.iter().any(|p| p == check))
+    // every E2 scenario is a concurrent execution, and C07's statement includes its aftermath:
+    // "exactly the handle that a sequential execution would return ... afterwards the diagram is
+    // well-formed with exact reference counts" - so failures of canonicity (C01), structure (C03)
+    // and reference counts / collection (C05) after a concurrent run count for C07 too
+    vs.iter().find(|v| v.props.iter().any(|p| p == check || (check == "C07" && matches!(p.as_str(), "C01" | "C03" | "C05"))))
 }
 
 fn digest_json<T: Serialize>(x: &T) -> u64 {
@@ -613,7 +620,7 @@ fn load(path: &str) -> Replay {
 }
 
 fn same_failure(want: &Violation, check: &str, vs: &[Violation]) -> Option<Violation> {
-    vs.iter().find(|v| v.class == want.class && v.props.iter().any(|p| p == check)).cloned()
+    vs.iter().find(|v| v.class == want.class && v.props.iter().any(|p| p == check || (check == "C07" && matches!(p.as_str(), "C01" | "C03" | "C05")))).cloned()
 }
 
 fn replay(args: &[String]) -> i32 {
